@@ -1314,7 +1314,7 @@ class Stage:
 
     @property
     def _transcribed(self):
-        if not self.is_transcribed:
+        if not self.is_transcribed and self._is_original:
             self.master._transcribe()
         if self._is_original:
             return self._augmented 
